@@ -4,7 +4,7 @@ namespace Model.Writers
 
 /-- program points at which the thread holds `_version_lock` -/
 def holdsLock : Pc → Bool
-  | .wTest | .wMkTxn | .wClrEv | .wRelA | .wNewEv | .wAppend | .wRelB | .cAppend | .cPrune | .cNodes | .eTxnNone | .eTestW | .ePop | .eSet | .eRel | .rdPick | .rdAdd | .rdRel | .xRemove | .xPrune | .xRel => true
+  | .wTest | .wMkTxn | .wClrEv | .wRelA | .wNewEv | .wAppend | .wRelB | .cAppend | .cPrune | .cNodes | .cUndo | .eTxnNone | .eTestW | .ePop | .eSet | .eRel | .rdPick | .rdAdd | .rdRel | .xRemove | .xPrune | .xRel => true
   | _ => false
 
 @[simp, grind =] theorem holdsLock_idle : holdsLock .idle = false := rfl
@@ -26,6 +26,7 @@ def holdsLock : Pc → Bool
 @[simp, grind =] theorem holdsLock_cAppend : holdsLock .cAppend = true := rfl
 @[simp, grind =] theorem holdsLock_cPrune : holdsLock .cPrune = true := rfl
 @[simp, grind =] theorem holdsLock_cNodes : holdsLock .cNodes = true := rfl
+@[simp, grind =] theorem holdsLock_cUndo : holdsLock .cUndo = true := rfl
 @[simp, grind =] theorem holdsLock_rAcq : holdsLock .rAcq = false := rfl
 @[simp, grind =] theorem holdsLock_eTxnNone : holdsLock .eTxnNone = true := rfl
 @[simp, grind =] theorem holdsLock_eTestW : holdsLock .eTestW = true := rfl
@@ -46,7 +47,7 @@ def holdsLock : Pc → Bool
 
 /-- program points at which the thread owns the open write transaction (`_write_txn`) -/
 def isOwner : Pc → Bool
-  | .wClrEv | .wRelA | .wSetupId | .wSetupCopy | .wReturn | .wBody | .cAcq | .cAppend | .cPrune | .cNodes | .rAcq | .eTxnNone => true
+  | .wClrEv | .wRelA | .wSetupId | .wSetupCopy | .wReturn | .wBody | .cAcq | .cAppend | .cPrune | .cNodes | .cUndo | .rAcq | .eTxnNone => true
   | _ => false
 
 @[simp, grind =] theorem isOwner_idle : isOwner .idle = false := rfl
@@ -68,6 +69,7 @@ def isOwner : Pc → Bool
 @[simp, grind =] theorem isOwner_cAppend : isOwner .cAppend = true := rfl
 @[simp, grind =] theorem isOwner_cPrune : isOwner .cPrune = true := rfl
 @[simp, grind =] theorem isOwner_cNodes : isOwner .cNodes = true := rfl
+@[simp, grind =] theorem isOwner_cUndo : isOwner .cUndo = true := rfl
 @[simp, grind =] theorem isOwner_rAcq : isOwner .rAcq = true := rfl
 @[simp, grind =] theorem isOwner_eTxnNone : isOwner .eTxnNone = true := rfl
 @[simp, grind =] theorem isOwner_eTestW : isOwner .eTestW = false := rfl
@@ -110,6 +112,7 @@ def queuedPc : Pc → Bool
 @[simp, grind =] theorem queuedPc_cAppend : queuedPc .cAppend = false := rfl
 @[simp, grind =] theorem queuedPc_cPrune : queuedPc .cPrune = false := rfl
 @[simp, grind =] theorem queuedPc_cNodes : queuedPc .cNodes = false := rfl
+@[simp, grind =] theorem queuedPc_cUndo : queuedPc .cUndo = false := rfl
 @[simp, grind =] theorem queuedPc_rAcq : queuedPc .rAcq = false := rfl
 @[simp, grind =] theorem queuedPc_eTxnNone : queuedPc .eTxnNone = false := rfl
 @[simp, grind =] theorem queuedPc_eTestW : queuedPc .eTestW = false := rfl
@@ -152,6 +155,7 @@ def tokenPc : Pc → Bool
 @[simp, grind =] theorem tokenPc_cAppend : tokenPc .cAppend = false := rfl
 @[simp, grind =] theorem tokenPc_cPrune : tokenPc .cPrune = false := rfl
 @[simp, grind =] theorem tokenPc_cNodes : tokenPc .cNodes = false := rfl
+@[simp, grind =] theorem tokenPc_cUndo : tokenPc .cUndo = false := rfl
 @[simp, grind =] theorem tokenPc_rAcq : tokenPc .rAcq = false := rfl
 @[simp, grind =] theorem tokenPc_eTxnNone : tokenPc .eTxnNone = false := rfl
 @[simp, grind =] theorem tokenPc_eTestW : tokenPc .eTestW = false := rfl
@@ -194,6 +198,7 @@ def snapAPc : Pc → Bool
 @[simp, grind =] theorem snapAPc_cAppend : snapAPc .cAppend = false := rfl
 @[simp, grind =] theorem snapAPc_cPrune : snapAPc .cPrune = false := rfl
 @[simp, grind =] theorem snapAPc_cNodes : snapAPc .cNodes = false := rfl
+@[simp, grind =] theorem snapAPc_cUndo : snapAPc .cUndo = false := rfl
 @[simp, grind =] theorem snapAPc_rAcq : snapAPc .rAcq = false := rfl
 @[simp, grind =] theorem snapAPc_eTxnNone : snapAPc .eTxnNone = false := rfl
 @[simp, grind =] theorem snapAPc_eTestW : snapAPc .eTestW = false := rfl
@@ -214,7 +219,7 @@ def snapAPc : Pc → Bool
 
 /-- the body has run and the thread is committing (before `self.nodes = version.nodes` has been executed) -/
 def commitPc : Pc → Bool
-  | .cAcq | .cAppend | .cPrune | .cNodes => true
+  | .cAcq | .cAppend | .cPrune | .cNodes | .cUndo => true
   | _ => false
 
 @[simp, grind =] theorem commitPc_idle : commitPc .idle = false := rfl
@@ -236,6 +241,7 @@ def commitPc : Pc → Bool
 @[simp, grind =] theorem commitPc_cAppend : commitPc .cAppend = true := rfl
 @[simp, grind =] theorem commitPc_cPrune : commitPc .cPrune = true := rfl
 @[simp, grind =] theorem commitPc_cNodes : commitPc .cNodes = true := rfl
+@[simp, grind =] theorem commitPc_cUndo : commitPc .cUndo = true := rfl
 @[simp, grind =] theorem commitPc_rAcq : commitPc .rAcq = false := rfl
 @[simp, grind =] theorem commitPc_eTxnNone : commitPc .eTxnNone = false := rfl
 @[simp, grind =] theorem commitPc_eTestW : commitPc .eTestW = false := rfl
@@ -278,6 +284,7 @@ def vidPc : Pc → Bool
 @[simp, grind =] theorem vidPc_cAppend : vidPc .cAppend = true := rfl
 @[simp, grind =] theorem vidPc_cPrune : vidPc .cPrune = false := rfl
 @[simp, grind =] theorem vidPc_cNodes : vidPc .cNodes = false := rfl
+@[simp, grind =] theorem vidPc_cUndo : vidPc .cUndo = false := rfl
 @[simp, grind =] theorem vidPc_rAcq : vidPc .rAcq = false := rfl
 @[simp, grind =] theorem vidPc_eTxnNone : vidPc .eTxnNone = false := rfl
 @[simp, grind =] theorem vidPc_eTestW : vidPc .eTestW = false := rfl
@@ -298,7 +305,7 @@ def vidPc : Pc → Bool
 
 /-- owner of the write transaction that has not yet published its nodes -/
 def preCommitPc : Pc → Bool
-  | .wClrEv | .wRelA | .wSetupId | .wSetupCopy | .wReturn | .wBody | .cAcq | .cAppend | .cPrune | .cNodes => true
+  | .wClrEv | .wRelA | .wSetupId | .wSetupCopy | .wReturn | .wBody | .cAcq | .cAppend | .cPrune | .cNodes | .cUndo => true
   | _ => false
 
 @[simp, grind =] theorem preCommitPc_idle : preCommitPc .idle = false := rfl
@@ -320,6 +327,7 @@ def preCommitPc : Pc → Bool
 @[simp, grind =] theorem preCommitPc_cAppend : preCommitPc .cAppend = true := rfl
 @[simp, grind =] theorem preCommitPc_cPrune : preCommitPc .cPrune = true := rfl
 @[simp, grind =] theorem preCommitPc_cNodes : preCommitPc .cNodes = true := rfl
+@[simp, grind =] theorem preCommitPc_cUndo : preCommitPc .cUndo = true := rfl
 @[simp, grind =] theorem preCommitPc_rAcq : preCommitPc .rAcq = false := rfl
 @[simp, grind =] theorem preCommitPc_eTxnNone : preCommitPc .eTxnNone = false := rfl
 @[simp, grind =] theorem preCommitPc_eTestW : preCommitPc .eTestW = false := rfl
@@ -340,7 +348,7 @@ def preCommitPc : Pc → Bool
 
 /-- the new version is in `_versions` but `zone.nodes` is still the old one -/
 def appendedPc : Pc → Bool
-  | .cPrune | .cNodes => true
+  | .cPrune | .cNodes | .cUndo => true
   | _ => false
 
 @[simp, grind =] theorem appendedPc_idle : appendedPc .idle = false := rfl
@@ -362,6 +370,7 @@ def appendedPc : Pc → Bool
 @[simp, grind =] theorem appendedPc_cAppend : appendedPc .cAppend = false := rfl
 @[simp, grind =] theorem appendedPc_cPrune : appendedPc .cPrune = true := rfl
 @[simp, grind =] theorem appendedPc_cNodes : appendedPc .cNodes = true := rfl
+@[simp, grind =] theorem appendedPc_cUndo : appendedPc .cUndo = true := rfl
 @[simp, grind =] theorem appendedPc_rAcq : appendedPc .rAcq = false := rfl
 @[simp, grind =] theorem appendedPc_eTxnNone : appendedPc .eTxnNone = false := rfl
 @[simp, grind =] theorem appendedPc_eTestW : appendedPc .eTestW = false := rfl
@@ -404,6 +413,7 @@ def readerHasPc : Pc → Bool
 @[simp, grind =] theorem readerHasPc_cAppend : readerHasPc .cAppend = false := rfl
 @[simp, grind =] theorem readerHasPc_cPrune : readerHasPc .cPrune = false := rfl
 @[simp, grind =] theorem readerHasPc_cNodes : readerHasPc .cNodes = false := rfl
+@[simp, grind =] theorem readerHasPc_cUndo : readerHasPc .cUndo = false := rfl
 @[simp, grind =] theorem readerHasPc_rAcq : readerHasPc .rAcq = false := rfl
 @[simp, grind =] theorem readerHasPc_eTxnNone : readerHasPc .eTxnNone = false := rfl
 @[simp, grind =] theorem readerHasPc_eTestW : readerHasPc .eTestW = false := rfl
@@ -446,6 +456,7 @@ def readerPc : Pc → Bool
 @[simp, grind =] theorem readerPc_cAppend : readerPc .cAppend = false := rfl
 @[simp, grind =] theorem readerPc_cPrune : readerPc .cPrune = false := rfl
 @[simp, grind =] theorem readerPc_cNodes : readerPc .cNodes = false := rfl
+@[simp, grind =] theorem readerPc_cUndo : readerPc .cUndo = false := rfl
 @[simp, grind =] theorem readerPc_rAcq : readerPc .rAcq = false := rfl
 @[simp, grind =] theorem readerPc_eTxnNone : readerPc .eTxnNone = false := rfl
 @[simp, grind =] theorem readerPc_eTestW : readerPc .eTestW = false := rfl
@@ -476,6 +487,7 @@ def lockFuel : Pc → Nat
   | .cAppend => 8
   | .cPrune => 7
   | .cNodes => 6
+  | .cUndo => 6
   | .eTxnNone => 5
   | .eTestW => 4
   | .ePop => 3
@@ -508,6 +520,7 @@ def lockFuel : Pc → Nat
 @[simp, grind =] theorem lockFuel_cAppend : lockFuel .cAppend = 8 := rfl
 @[simp, grind =] theorem lockFuel_cPrune : lockFuel .cPrune = 7 := rfl
 @[simp, grind =] theorem lockFuel_cNodes : lockFuel .cNodes = 6 := rfl
+@[simp, grind =] theorem lockFuel_cUndo : lockFuel .cUndo = 6 := rfl
 @[simp, grind =] theorem lockFuel_rAcq : lockFuel .rAcq = 0 := rfl
 @[simp, grind =] theorem lockFuel_eTxnNone : lockFuel .eTxnNone = 5 := rfl
 @[simp, grind =] theorem lockFuel_eTestW : lockFuel .eTestW = 4 := rfl
@@ -542,6 +555,7 @@ def stageFuel : Pc → Nat
   | .cAppend => 25
   | .cPrune => 24
   | .cNodes => 23
+  | .cUndo => 23
   | .eTxnNone => 22
   | .eTestW => 14
   | .ePop => 13
@@ -571,6 +585,7 @@ def stageFuel : Pc → Nat
 @[simp, grind =] theorem stageFuel_cAppend : stageFuel .cAppend = 25 := rfl
 @[simp, grind =] theorem stageFuel_cPrune : stageFuel .cPrune = 24 := rfl
 @[simp, grind =] theorem stageFuel_cNodes : stageFuel .cNodes = 23 := rfl
+@[simp, grind =] theorem stageFuel_cUndo : stageFuel .cUndo = 23 := rfl
 @[simp, grind =] theorem stageFuel_rAcq : stageFuel .rAcq = 26 := rfl
 @[simp, grind =] theorem stageFuel_eTxnNone : stageFuel .eTxnNone = 22 := rfl
 @[simp, grind =] theorem stageFuel_eTestW : stageFuel .eTestW = 14 := rfl
@@ -623,6 +638,7 @@ def readerFuel : Pc → Nat
 @[simp, grind =] theorem readerFuel_cAppend : readerFuel .cAppend = 0 := rfl
 @[simp, grind =] theorem readerFuel_cPrune : readerFuel .cPrune = 0 := rfl
 @[simp, grind =] theorem readerFuel_cNodes : readerFuel .cNodes = 0 := rfl
+@[simp, grind =] theorem readerFuel_cUndo : readerFuel .cUndo = 0 := rfl
 @[simp, grind =] theorem readerFuel_rAcq : readerFuel .rAcq = 0 := rfl
 @[simp, grind =] theorem readerFuel_eTxnNone : readerFuel .eTxnNone = 0 := rfl
 @[simp, grind =] theorem readerFuel_eTestW : readerFuel .eTestW = 0 := rfl
@@ -665,6 +681,7 @@ def endPc : Pc → Bool
 @[simp, grind =] theorem endPc_cAppend : endPc .cAppend = false := rfl
 @[simp, grind =] theorem endPc_cPrune : endPc .cPrune = false := rfl
 @[simp, grind =] theorem endPc_cNodes : endPc .cNodes = false := rfl
+@[simp, grind =] theorem endPc_cUndo : endPc .cUndo = false := rfl
 @[simp, grind =] theorem endPc_rAcq : endPc .rAcq = false := rfl
 @[simp, grind =] theorem endPc_eTxnNone : endPc .eTxnNone = false := rfl
 @[simp, grind =] theorem endPc_eTestW : endPc .eTestW = true := rfl
@@ -707,6 +724,7 @@ def acqPc : Pc → Bool
 @[simp, grind =] theorem acqPc_cAppend : acqPc .cAppend = false := rfl
 @[simp, grind =] theorem acqPc_cPrune : acqPc .cPrune = false := rfl
 @[simp, grind =] theorem acqPc_cNodes : acqPc .cNodes = false := rfl
+@[simp, grind =] theorem acqPc_cUndo : acqPc .cUndo = false := rfl
 @[simp, grind =] theorem acqPc_rAcq : acqPc .rAcq = true := rfl
 @[simp, grind =] theorem acqPc_eTxnNone : acqPc .eTxnNone = false := rfl
 @[simp, grind =] theorem acqPc_eTestW : acqPc .eTestW = false := rfl
